@@ -17,6 +17,8 @@ use crate::rng::{derive, Rng};
 #[derive(Clone, Copy, PartialEq, Eq, Debug)]
 pub enum Engine {
     Seq,
+    /// Every history is first run uninterrupted to number its crash points, then once per (sampled / every) crash point.
+    Crash,
 }
 
 pub struct PropSpec {
@@ -35,6 +37,7 @@ const RULE_SEQ: &str = "histories are generated from splitmix(VERIF_SEED, proper
 pub const SPECS: &[PropSpec] = &[
     PropSpec { id: "C01", engine: Engine::Seq, profiles: &[(Profile::Breach, 70), (Profile::Chain, 15), (Profile::Resubmit, 15)], level: "exploration", quick_secs: 60, quick_runs: 30_000, thorough_secs: 900, rule: RULE_SEQ },
     PropSpec { id: "C02", engine: Engine::Seq, profiles: &[(Profile::Breach, 50), (Profile::Chain, 35), (Profile::Expiry, 15)], level: "exploration", quick_secs: 60, quick_runs: 30_000, thorough_secs: 900, rule: RULE_SEQ },
+    PropSpec { id: "C03", engine: Engine::Crash, profiles: &[(Profile::Breach, 60), (Profile::Chain, 25), (Profile::Expiry, 15)], level: "fault_enumeration", quick_secs: 75, quick_runs: 400, thorough_secs: 1200, rule: RULE_CRASH },
     PropSpec { id: "C04", engine: Engine::Seq, profiles: &[(Profile::Chain, 90), (Profile::Breach, 10)], level: "exploration", quick_secs: 75, quick_runs: 20_000, thorough_secs: 1200, rule: RULE_SEQ },
     PropSpec { id: "C06", engine: Engine::Seq, profiles: &[(Profile::Auth, 85), (Profile::Expiry, 15)], level: "exploration", quick_secs: 60, quick_runs: 30_000, thorough_secs: 900, rule: RULE_SEQ },
     PropSpec { id: "C07", engine: Engine::Seq, profiles: &[(Profile::Breach, 50), (Profile::Chain, 20), (Profile::Expiry, 15), (Profile::Auth, 15)], level: "exploration", quick_secs: 60, quick_runs: 30_000, thorough_secs: 900, rule: RULE_SEQ },
@@ -43,6 +46,8 @@ pub const SPECS: &[PropSpec] = &[
     PropSpec { id: "C11", engine: Engine::Seq, profiles: &[(Profile::Resubmit, 50), (Profile::Breach, 20), (Profile::Chain, 20), (Profile::Expiry, 10)], level: "exploration", quick_secs: 60, quick_runs: 30_000, thorough_secs: 900, rule: RULE_SEQ },
     PropSpec { id: "C19", engine: Engine::Seq, profiles: &[(Profile::Chain, 70), (Profile::Breach, 30)], level: "exploration", quick_secs: 60, quick_runs: 30_000, thorough_secs: 900, rule: RULE_SEQ },
 ];
+
+const RULE_CRASH: &str = "histories as for C01 (shorter, with block-download failures and multi-block polls); each history is first executed uninterrupted to number the crash points it passes (before/after every durable write and explicit sqlite commit, before/after every node RPC and block-source call); then it is re-executed once per crash point (quick: 12 sampled per history; thorough: every point), the tower being killed there, restarted on the same sqlite file and driven through the remaining operations; evaluations = executions; non-trivial = a crash actually fired in a run with at least one breach / tracker transition / purge; distinct = distinct (history hash, crash point)";
 
 pub fn spec(id: &str) -> Option<&'static PropSpec> {
     SPECS.iter().find(|s| s.id == id)
@@ -75,7 +80,9 @@ pub fn run_in_thread(h: &History) -> RunResult {
 }
 
 pub fn signature(property: &str, f: &Found) -> String {
-    let mut s = format!("{}|{}|{}", property, f.v.clause, f.op_kind);
+    // Violations detected at (re)start are not tied to the operation that happened to be in flight.
+    let kind = if f.v.clause.starts_with("restart_") { "restart" } else { f.op_kind.as_str() };
+    let mut s = format!("{}|{}|{}", property, f.v.clause, kind);
     if f.v.clause == "abort" {
         s.push('|');
         s.push_str(&f.v.detail);
@@ -174,6 +181,12 @@ pub struct WorkerOut {
     pub known_seen: BTreeMap<String, u64>,
     pub other_property: BTreeMap<String, u64>,
     pub digests: BTreeMap<u64, u64>,
+    #[serde(default)]
+    pub histories_enumerated: u64,
+    #[serde(default)]
+    pub crash_points_numbered: u64,
+    #[serde(default)]
+    pub incomplete_histories: u64,
 }
 
 fn merge_stats(out: &mut WorkerOut, st: &RunStats) {
@@ -206,6 +219,7 @@ pub fn cmd_worker(args: &[String]) -> i32 {
     let deadline: u64 = args[5].parse().unwrap();
     let outfile = &args[6];
     let want_digests = args.get(7).map(|s| s == "digests").unwrap_or(false);
+    let thorough = args.get(8).map(|s| s == "thorough").unwrap_or(false);
     let spec = spec(id).unwrap_or_else(|| {
         eprintln!("unknown property {id}");
         std::process::exit(2)
@@ -217,8 +231,46 @@ pub fn cmd_worker(args: &[String]) -> i32 {
     let mut handled: BTreeSet<String> = BTreeSet::new();
     let mut i = start;
     while i < max_index && now_ms() < deadline {
-        let h = history_for(spec, root, i);
+        let base = history_for(spec, root, i);
+        let mut todo: Vec<History> = vec![base.clone()];
+        let mut planned = false;
+        let mut qi = 0usize;
+        while qi < todo.len() {
+        let h = todo[qi].clone();
+        qi += 1;
+        if now_ms() >= deadline && qi > 1 {
+            out.incomplete_histories += 1;
+            break;
+        }
         let res = run_in_thread(&h);
+        if spec.engine == Engine::Crash && !planned {
+            planned = true;
+            let n = res.stats.crash_points_passed;
+            let nb = res.stats.crash_points_first_boot.min(n);
+            let mut r = Rng::new(derive(base.seed, "crashpts", 0));
+            // Points inside the very first start (empty database) are all alike: take one of them, spend the rest of the
+            // budget on points that fall inside operations.
+            let mut points: Vec<u64> = vec![];
+            if nb > 0 {
+                points.push(r.range(1, nb));
+            }
+            if thorough || n - nb <= 12 {
+                points.extend(nb + 1..=n);
+            } else {
+                let mut set = BTreeSet::new();
+                while set.len() < 12 {
+                    set.insert(r.range(nb + 1, n));
+                }
+                points.extend(set);
+            }
+            for pt in points {
+                let mut hc = base.clone();
+                hc.faults.crash_at = vec![pt];
+                todo.push(hc);
+            }
+            out.histories_enumerated += 1;
+            out.crash_points_numbered += n;
+        }
         out.runs += 1;
         merge_stats(&mut out, &res.stats);
         if res.stats.nontrivial {
@@ -226,16 +278,23 @@ pub fn cmd_worker(args: &[String]) -> i32 {
         }
         states.extend(res.stats.model_states.iter());
         if want_digests {
-            out.digests.insert(i, res.stats.log_digest);
+            out.digests.insert(i * 4096 + qi as u64, res.stats.log_digest);
         }
         if out.samples.len() < 2 && res.stats.nontrivial && start == 0 {
             out.samples.push(json!({"index": i, "seed": h.seed, "cfg": h.cfg, "ops": h.ops.iter().take(40).collect::<Vec<_>>(), "faults": h.faults}));
         }
+        // Only the first violation of the target property in a run is judged: later ones are usually its consequences
+        // (the model has diverged), and an independent one will show up first under some other seed.
+        let mut first_done = false;
         for f in res.found.iter() {
             if f.v.property != spec.id {
                 *out.other_property.entry(format!("{}:{}", f.v.property, f.v.clause)).or_insert(0) += 1;
                 continue;
             }
+            if first_done {
+                continue;
+            }
+            first_done = true;
             let sig = signature(spec.id, f);
             if let Some(_k) = is_known_open(&known, spec.id, &sig) {
                 *out.known_seen.entry(sig.clone()).or_insert(0) += 1;
@@ -276,6 +335,7 @@ pub fn cmd_worker(args: &[String]) -> i32 {
             }
             out.violations.push((sig, path.to_string_lossy().to_string(), f.v.detail.clone()));
         }
+        }
         i += step;
     }
     out.nontrivial_hashes = nontrivial.into_iter().collect();
@@ -290,7 +350,7 @@ pub struct BatchResult {
     pub jobs: usize,
 }
 
-pub fn run_batch(id: &str, root: u64, max_runs: u64, secs: u64, jobs: usize, digests: bool) -> BatchResult {
+pub fn run_batch(id: &str, root: u64, max_runs: u64, secs: u64, jobs: usize, digests: bool, thorough: bool) -> BatchResult {
     let t0 = Instant::now();
     let deadline = now_ms() + secs * 1000;
     let tmp = PathBuf::from(format!("/dev/shm/teos-sim-batch-{}", std::process::id()));
@@ -309,9 +369,8 @@ pub fn run_batch(id: &str, root: u64, max_runs: u64, secs: u64, jobs: usize, dig
             .arg(max_runs.to_string())
             .arg(deadline.to_string())
             .arg(&outfile);
-        if digests {
-            c.arg("digests");
-        }
+        c.arg(if digests { "digests" } else { "nodigests" });
+        c.arg(if thorough { "thorough" } else { "quick" });
         children.push((c.spawn().expect("spawn worker"), outfile));
     }
     let mut merged = WorkerOut::default();
@@ -333,6 +392,9 @@ pub fn run_batch(id: &str, root: u64, max_runs: u64, secs: u64, jobs: usize, dig
         merged.crashes += w.crashes;
         merged.restarts += w.restarts;
         merged.crash_points += w.crash_points;
+        merged.histories_enumerated += w.histories_enumerated;
+        merged.crash_points_numbered += w.crash_points_numbered;
+        merged.incomplete_histories += w.incomplete_histories;
         for (k, v) in w.probes {
             *merged.probes.entry(k).or_insert(0) += v;
         }
@@ -394,7 +456,7 @@ pub fn cmd_check(args: &[String]) -> i32 {
         return 2;
     }
 
-    let b = run_batch(&id, root, runs, secs, jobs, false);
+    let b = run_batch(&id, root, runs, secs, jobs, false, thorough);
     let known = load_known();
     let m = &b.merged;
 
@@ -454,6 +516,9 @@ pub fn cmd_check(args: &[String]) -> i32 {
             "tower_restarts": m.restarts,
             "crashes_injected": m.crashes,
             "crash_points_passed": m.crash_points,
+            "histories_with_crash_points_numbered": m.histories_enumerated,
+            "crash_points_numbered_in_dry_runs": m.crash_points_numbered,
+            "histories_cut_short_by_the_time_budget": m.incomplete_histories,
             "faults_fired": m.faults_fired,
             "probes": m.probes,
             "probes_never_hit": zero_probes,
@@ -502,10 +567,10 @@ pub fn expected_probes(id: &str) -> &'static [&'static str] {
 }
 
 fn determinism_check(id: &str, root: u64, n: u64) -> Result<(), String> {
-    let a = run_batch(id, root, n, 600, 3, true);
-    let b = run_batch(id, root, n, 600, 7, true);
-    if a.merged.digests.len() as u64 != n || b.merged.digests.len() as u64 != n {
-        return Err(format!("expected {n} digests, got {} and {}", a.merged.digests.len(), b.merged.digests.len()));
+    let a = run_batch(id, root, n, 600, 3, true, false);
+    let b = run_batch(id, root, n, 600, 7, true, false);
+    if (a.merged.digests.len() as u64) < n || a.merged.digests.len() != b.merged.digests.len() {
+        return Err(format!("expected >= {n} digests, got {} and {}", a.merged.digests.len(), b.merged.digests.len()));
     }
     for (i, d) in a.merged.digests.iter() {
         if b.merged.digests.get(i) != Some(d) {
@@ -550,8 +615,8 @@ pub fn cmd_replay(args: &[String]) -> i32 {
     };
     let res = run_in_thread(&rf.history);
     let mut hit = false;
-    for f in res.found.iter() {
-        if f.v.property == rf.property {
+    for f in res.found.iter().filter(|f| f.v.property == rf.property).take(1) {
+        {
             let sig = signature(&rf.property, f);
             if sig == rf.signature {
                 if !hit {
